@@ -882,7 +882,7 @@ func negKey(p *valPayload, f finding) string {
 }
 
 // allocation allowed for reading an input of n bytes with length sanity checks on
-func allocBound(n int) uint64 { return 1<<20 + 8192*uint64(n) }
+func allocBound(n int) uint64 { return 256<<10 + 4096*uint64(n) }
 
 // total08 (C08): every reader returns normally on every stimulus derived from the model:
 // no panic, no hang (watchdog), and with sanity checks on no allocation out of proportion.
